@@ -1,8 +1,8 @@
 From Coq Require Import Extraction ExtrOcamlBasic.
-From EE Require Import Api Eval Etoks.
+From EE Require Import Api Eval Etoks LexPrintExpr.
 Extraction Language OCaml.
 (* coqc is run by make from /verif/coq; the path is relative to that directory *)
 Extraction "../build/ocaml/model.ml" api_lex api_parse api_expr api_describe dec_of_string dec_to_string
   api_tbl api_h_lex api_h_parse api_h_exec api_def_script api_reg_function api_reg_prefix api_reg_postfix api_reg_infix
   api_ctx_set api_ctx_dump api_log api_clear_log init_state s_inexact
-  from_int v_integer v_decimal v_string v_bool v_list dec_add dec_sub dec_mul dec_div dec_rem dec_cmp dec_to_i64 value_eqb premises printer_tokens.
+  from_int v_integer v_decimal v_string v_bool v_list dec_add dec_sub dec_mul dec_div dec_rem dec_cmp dec_to_i64 value_eqb premises printer_tokens psaneb tbl_print_okb.
